@@ -100,11 +100,15 @@ fn systematic(ctx: &Ctx, errexit: bool) {
             // validity: break/continue need an enclosing loop not separated by a subshell/function;
             // return needs a function
             let mut loops = 0u32;
+            let mut all_loops = 0u32;
             let mut in_func = false;
             for kd in stack.iter().rev() {
                 // stack[0] is innermost; iterate outermost first
                 match kd {
-                    K::While | K::Until | K::For => loops += 1,
+                    K::While | K::Until | K::For => {
+                        loops += 1;
+                        all_loops += 1;
+                    }
                     K::Sub | K::PipeLast => loops = 0,
                     K::Func => {
                         loops = 0;
@@ -115,6 +119,10 @@ fn systematic(ctx: &Ctx, errexit: bool) {
             }
             match leaf {
                 Leaf::Break(n) | Leaf::Continue(n) if loops == 0 || n > loops + 1 => return,
+                // `break n` reaching beyond the loops of the current function/subshell while the
+                // caller has loops of its own: lexical (model) vs dynamic (yash, dash) scoping is not
+                // settled by the standard
+                Leaf::Break(n) | Leaf::Continue(n) if n > loops && all_loops > loops => return,
                 Leaf::Return(_) if !in_func => return,
                 _ => {}
             }
@@ -188,6 +196,7 @@ fn systematic(ctx: &Ctx, errexit: bool) {
                 trap: errexit,
                 syntax_error_after: None,
                 with_readonly: false,
+                monitor: false,
             };
             let mut rng = Rng::new(idx as u64);
             let text = ctlrun::render(&prog, &mut rng);
@@ -393,7 +402,7 @@ pub fn dump(which: &str, n: usize, seed: u64) {
                 Cmd::Pipe(_) => true,
                 Cmd::Seq(cs) => cs.iter().any(has_pipe),
                 Cmd::AndOr(a, r) => has_pipe(a) || r.iter().any(|(_, c)| has_pipe(c)),
-                Cmd::Not(c) | Cmd::Brace(c) | Cmd::Subshell(c) | Cmd::FuncDef(_, c) => has_pipe(c),
+                Cmd::Not(c) | Cmd::Brace(c) | Cmd::Subshell(c) | Cmd::FuncDef(_, c) | Cmd::Dot { body: c, .. } => has_pipe(c),
                 Cmd::If(arms, e) => arms.iter().any(|(a, b)| has_pipe(a) || has_pipe(b)) || e.as_ref().is_some_and(|e| has_pipe(e)),
                 Cmd::Loop { body, .. } | Cmd::For { body, .. } => has_pipe(body),
                 Cmd::Case { items, .. } => items.iter().any(|(_, b)| has_pipe(b)),
@@ -409,6 +418,7 @@ pub fn dump(which: &str, n: usize, seed: u64) {
             lines,
             trap,
             with_readonly: cfg.errors || cfg.vars,
+            monitor: cfg.errors && rng.chance(25),
         };
         let text = ctlrun::render(&p, &mut rng);
         let run_lines: &[Cmd] = match p.syntax_error_after {
